@@ -12,6 +12,7 @@ import Driver.Start
 import Driver.Cred
 import Driver.Retry
 import Driver.Sys
+import Driver.Job
 /-
 Line-protocol driver for the executable models.  One operation per input line,
 exactly one output line per operation.  The first word selects the model; each
@@ -48,6 +49,7 @@ def step (st : St) (line : String) : St × String :=
   | "cred" :: args => let (s, o) := Cred.step st.cred args; ({ st with cred := s }, o)
   | "retry" :: args => let (s, o) := Retry.step st.retry args; ({ st with retry := s }, o)
   | "sys" :: args => let (s, o) := Sys.step st.sys args; ({ st with sys := s }, o)
+  | "job" :: args => (st, (Job.step {} args).2)
   | _ => (st, "bad-op")
 
 partial def loop (h : IO.FS.Stream) (out : IO.FS.Stream) (st : St) : IO Unit := do
